@@ -183,3 +183,31 @@ Proof.
       apply (Rmult_le_compat_r l _ _ Hl) in A1, A2, A3, A4.
       unfold in_box3, v2muls; cbn [bb3 b3min b3max wx wy wz vx vy]. ropen. fold l. lra.
 Qed.
+
+(* a full revolution (theta a multiple of 2 pi, in particular Revolve3D = theta 0) of a profile in the class
+   lbinf is in lbinf *)
+Lemma revolve_full_lbinf s theta0 o : Rfmod (Rabs theta0) (@tau ROps) = 0 ->
+  @k_revolve ROps s theta0 = Some o -> lbinf_2 s -> lbinf_3 o.
+Proof.
+  intros Hth H Hs. destruct Hs as [[Hx Hy] Hs']. pose proof (conj (conj Hx Hy) Hs' : lbinf_2 s) as Hs.
+  unfold k_revolve in H. kinv' H. bfalse. cbv zeta.
+  change (ofmod ROps (oabs ROps theta0) tau) with (Rfmod (Rabs theta0) (@tau ROps)). rewrite Hth.
+  ropen. set (l := Rmax (Rabs (vx (b2min (bb2 s)))) (Rabs (vx (b2max (bb2 s))))).
+  assert (Hl : 0 <= l) by (unfold l; eapply Rle_trans; [apply Rabs_pos | apply Rmax_l]).
+  assert (Hlx : vx (b2max (bb2 s)) <= l) by (unfold l; eapply Rle_trans; [apply Rabs_ge_l | apply Rmax_r]).
+  assert (E0 : Reqb 0 0 = true) by (apply Reqb_true; reflexivity). rewrite E0.
+  assert (Emin : Rmin (Rmin 1 1) (- (1)) = - (1)) by (unfold Rmin; repeat destruct (Rle_dec _ _); lra).
+  assert (Emax : Rmax (Rmax 1 1) (- (1)) = 1) by (unfold Rmax; repeat destruct (Rle_dec _ _); lra).
+  apply lbinf3_intro; cbn [bb3 ev3].
+  - unfold ordered3; cbn. fold l. rewrite Emin, Emax. lra.
+  - intros p Hout.
+    assert (EM : forall a : R, Rmax a a = a) by (intros a; apply Rmax_left; lra).
+    set (rho := sqrt (wx p * wx p + wy p * wy p)) in *. assert (Hrho : 0 <= rho) by apply sqrt_pos.
+    pose proof (abs_le_len2_x (mkV2 (wx p) (wy p))) as X. pose proof (abs_le_len2_y (mkV2 (wx p) (wy p))) as Y.
+    unfold len2 in X, Y; cbn in X, Y. fold rho in X, Y.
+    pose proof (Rabs_ge_l (wx p)). pose proof (Rabs_ge_r (wx p)). pose proof (Rabs_ge_l (wy p)). pose proof (Rabs_ge_r (wy p)).
+    assert (Hout2 : ~ in_box2 (bb2 s) (mkV2 rho (wz p))).
+    { intros [Ix Iy]. cbn in Ix, Iy. apply Hout. unfold in_box3; cbn. fold l. rewrite Emin, Emax. lra. }
+    pose proof (lbinf2_elim s _ Hs Hout2) as (A & B & C & D). cbn in A, B, C, D.
+    unfold slab3; cbn. fold l. rewrite Emin, Emax. fold rho. rewrite EM. repeat split; lra.
+Qed.
